@@ -1,15 +1,16 @@
-import SqlProofs.DelimR.Bodies
-import SqlProofs.DelimR.Bridge
-import SqlProofs.DelimR.NW7
+import SqlProofs.DelimChild.Reindent.Bodies
+import SqlProofs.DelimChild.Reindent.Bridge
+import SqlProofs.DelimChild.Reindent.NW7
 /-!
-# SqlProofs.DelimR.Main — **the child-level delimiter theorem**
+# SqlProofs.DelimChild.Reindent.Main — **the child-level delimiter theorem**
 
 `delims_kept_childwise`: for a flat statement `st` with `DelimSafe st`, every Parenthesis / SquareBrackets / Case / If /
 For / Begin node of `group 200 (flatStatement st)` is `[opener, …, closer, (whitespace | Comment group)*]` at child
 level (`delimShapeL`).
 -/
 namespace Sql
-namespace DC
+namespace DCR
+open DC
 
 variable {u : Text → Text}
 
@@ -73,7 +74,7 @@ theorem stepTop_values {ph : Ph} : StepTop u ph ph (adHocPass Gen.group_values_r
         have : Ops false false [] L L' := Ops.of_groupTokens (F := L) (by simp) h h1 h2 rfl
           ⟨startIdx, token, Nat.le_refl _, h1, hs2,
             item_of_trig (fun x hw => trig_values (Or.inl hw)) (by comma_simp) (tokenNextBy_spec hnb).2.2⟩ (by decide)
-        exact this.listInv (fun h0 => by cases h0) hi
+        exact this.listInv (fun h0 => by cases h0) (fun h0 => nomatch h0) hi
 
 /-! ### group_assignment does nothing without `:=` -/
 theorem stepTop_assignment {ph : Ph} : StepTop u ph ph (driverPass (cfgAssignment u)) := by
@@ -127,7 +128,7 @@ def tailSteps : List (String × Ph × Ph) :=
    ("group_arrays", .s, .s), ("group_identifier", .s, .s), ("group_order", .s, .s), ("group_typecasts", .s, .s),
    ("group_tzcasts", .s, .s), ("group_typed_literal", .s, .s), ("group_operator", .s, .s),
    ("group_comparison", .s, .s), ("group_as", .s, .s), ("group_aliased", .s, .s), ("group_assignment", .s, .s),
-   ("align_comments", .s, .t), ("group_identifier_list", .t, .t), ("group_values", .t, .t)]
+   ("align_comments", .s, .t), ("group_identifier_list", .t, .v), ("group_values", .v, .v)]
 
 theorem tailSteps_names : tailSteps.map (·.1) = Gen.passOrder.drop 7 := by decide
 
@@ -135,23 +136,27 @@ theorem tailSteps_ok (hu : DelimU u) : ∀ s ∈ tailSteps, StepTop u s.2.1 s.2.
   intro s hs
   simp only [tailSteps, List.mem_cons, List.not_mem_nil, or_false] at hs
   rcases hs with rfl | rfl | rfl | rfl | rfl | rfl | rfl | rfl | rfl | rfl | rfl | rfl | rfl | rfl | rfl | rfl | rfl | rfl
-  · rw [name_over]; exact .of_passInv (adHocPass_inv rfl _ (bodyOK_over hu))
-  · rw [name_functions]; exact .of_passInv (adHocPass_inv rfl _ (bodyOK_functions hu))
-  · rw [name_where]; exact .of_passInv (adHocPass_inv rfl _ (bodyOK_where hu))
-  · rw [name_period]; exact .of_passInv (driverPass_inv hu (cfgD_period hu) rfl)
-  · rw [name_arrays]; exact .of_passInv (driverPass_inv hu (cfgD_arrays hu) rfl)
-  · rw [name_identifier]; exact .of_passInv (adHocPass_inv rfl _ (bodyOK_identifier hu rfl))
-  · rw [name_order]; exact .of_passInv (adHocPass_inv rfl _ (bodyOK_order hu rfl))
-  · rw [name_typecasts]; exact .of_passInv (driverPass_inv hu (cfgD_typecasts hu) rfl)
-  · rw [name_tzcasts]; exact .of_passInv (driverPass_inv hu (cfgD_tzcasts hu) rfl)
-  · rw [name_typedLiteral]; exact .of_passInv (typedLiteralPass_inv hu rfl)
-  · rw [name_operator]; exact .of_passInv (driverPass_inv hu (cfgD_operator hu) rfl)
-  · rw [name_comparison]; exact .of_passInv (driverPass_inv hu (cfgD_comparison hu) rfl)
-  · rw [name_as]; exact .of_passInv (driverPass_inv hu (cfgD_as hu) rfl)
-  · rw [name_aliased]; exact .of_passInv (adHocPass_inv rfl _ (bodyOK_aliased hu rfl))
+  · rw [name_over]; exact .of_passInv (adHocPass_inv rfl (by decide) _ (bodyOK_over hu))
+  · rw [name_functions]; exact .of_passInv (adHocPass_inv rfl (by decide) _ (bodyOK_functions hu))
+  · rw [name_where]; exact .of_passInv (adHocPass_inv rfl (by decide) _ (bodyOK_where hu))
+  · rw [name_period]; exact .of_passInv (driverPass_inv hu (cfgD_period hu) rfl rfl (by decide) (fun h => nomatch h))
+  · rw [name_arrays]; exact .of_passInv (driverPass_inv hu (cfgD_arrays hu) rfl rfl (by decide) (fun h => nomatch h))
+  · rw [name_identifier]; exact .of_passInv (adHocPass_inv rfl (by decide) _ (bodyOK_identifier hu rfl))
+  · rw [name_order]; exact .of_passInv (adHocPass_inv rfl (by decide) _ (bodyOK_order hu rfl))
+  · rw [name_typecasts]
+    exact .of_passInv (driverPass_inv hu (cfgD_typecasts hu) rfl rfl (by decide) (fun h => nomatch h))
+  · rw [name_tzcasts]; exact .of_passInv (driverPass_inv hu (cfgD_tzcasts hu) rfl rfl (by decide) (fun h => nomatch h))
+  · rw [name_typedLiteral]; exact .of_passInv (typedLiteralPass_inv hu rfl (by decide))
+  · rw [name_operator]
+    exact .of_passInv (driverPass_inv hu (cfgD_operator hu) rfl rfl (by decide) (fun h => nomatch h))
+  · rw [name_comparison]
+    exact .of_passInv (driverPass_inv hu (cfgD_comparison hu) rfl rfl (by decide) (fun h => nomatch h))
+  · rw [name_as]; exact .of_passInv (driverPass_inv hu (cfgD_as hu) rfl rfl (by decide) (fun h => nomatch h))
+  · rw [name_aliased]; exact .of_passInv (adHocPass_inv rfl (by decide) _ (bodyOK_aliased hu rfl))
   · rw [name_assignment]; exact stepTop_assignment
-  · rw [name_align]; exact .of_passInv (adHocPass_inv rfl _ (bodyOK_align hu))
-  · rw [name_identifierList]; exact .of_passInv (driverPass_inv hu (cfgD_identifierList hu) rfl)
+  · rw [name_align]; exact .of_passInv (adHocPass_inv rfl (by decide) _ (bodyOK_align hu))
+  · rw [name_identifierList]
+    exact .of_passInv (driverPass_inv hu (cfgD_identifierList hu) rfl rfl (by decide) (fun _ => rfl))
   · rw [name_values]; exact stepTop_values
 
 /-- consecutive steps fit together -/
@@ -159,7 +164,7 @@ def Linked : List (String × Ph × Ph) → Ph → Ph → Prop
   | [], a, b => a = b
   | s :: rest, a, b => s.2.1 = a ∧ Linked rest s.2.2 b
 
-theorem tailSteps_linked : Linked tailSteps .w .t := by
+theorem tailSteps_linked : Linked tailSteps .w .v := by
   simp [tailSteps, Linked]
 
 theorem runPasses_chain {fuel : Nat} : ∀ (steps : List (String × Ph × Ph)) (a b : Ph), Linked steps a b →
@@ -186,19 +191,22 @@ theorem runPasses_chain {fuel : Nat} : ∀ (steps : List (String × Ph × Ph)) (
       have hna1 : NoAssign L1 := noAssign_of_leafRel (passByName_leaves u s.1 fuel .Statement L L1 hp) hna
       exact ih _ _ h2 (fun t ht => hs t (List.mem_cons_of_mem _ ht)) L1 L' h hna1 hi1
 
-/-- the invariant of the final tree: frames of all bracket/block nodes, and every group has a non-whitespace child -/
+/-- the invariant of the final tree -/
 theorem groupWith_listInv (hu : DelimU u) {fuel : Nat} {st : List Tok} {ks' : List Node}
-    (hs : DelimSafeWith u fuel st = true) (h : groupWith u fuel (flatStatement st) = .ok ks') :
-    ListInv u .t ks' := by
-  unfold DelimSafeWith at hs
-  simp only [Bool.and_eq_true, List.all_eq_true, bne_iff_ne, ne_eq] at hs
-  obtain ⟨hna0, hs7⟩ := hs
+    (hs : ReindentSafeWith u fuel st = true) (h : groupWith u fuel (flatStatement st) = .ok ks') :
+    ListInv u .v ks' := by
+  unfold ReindentSafeWith at hs
+  simp only [Bool.and_eq_true] at hs
+  obtain ⟨⟨hds, _⟩, hcs⟩ := hs
+  unfold DelimSafeWith at hds
+  simp only [Bool.and_eq_true, List.all_eq_true, bne_iff_ne, ne_eq] at hds
+  obtain ⟨hna0, hs7⟩ := hds
   unfold groupWith at h
   have hsplit : Gen.passOrder = Gen.passOrder.take 7 ++ Gen.passOrder.drop 7 := (List.take_append_drop 7 _).symm
   rw [hsplit] at h
   obtain ⟨m7, h7, htail⟩ := runPasses_append _ _ _ _ h
-  rw [h7] at hs7
-  simp only at hs7
+  rw [h7] at hs7 hcs
+  simp only at hs7 hcs
   have hna : NoAssign (flatStatement st) := by
     intro l hl
     have : Node.leavesL (flatStatement st) = st := leavesL_flat st
@@ -207,19 +215,8 @@ theorem groupWith_listInv (hu : DelimU u) {fuel : Nat} {st : List Tok} {ks' : Li
   have hna7 : NoAssign m7 :=
     noAssign_of_leafRel (runPasses_leaves u fuel .Statement _ _ _ h7) hna
   rw [← tailSteps_names] at htail
-  exact runPasses_chain tailSteps .w .t tailSteps_linked (tailSteps_ok hu) m7 ks' htail hna7
-    (listInv_of_delimSafe hu m7 hs7 (take7_nwL h7))
+  exact runPasses_chain tailSteps .w .v tailSteps_linked (tailSteps_ok hu) m7 ks' htail hna7
+    (listInv_of_delimSafe hu m7 hs7 (take7_nwL h7) hcs)
 
-/-- **the child-level delimiter theorem**, for any normaliser that separates the block keywords (`DelimU`) -/
-theorem groupWith_delims_childwise (hu : DelimU u) {fuel : Nat} {st : List Tok} {ks' : List Node}
-    (hs : DelimSafeWith u fuel st = true) (h : groupWith u fuel (flatStatement st) = .ok ks') :
-    delimShapeL u ks' = true :=
-  delimShapeL_of_listInv ks' (groupWith_listInv hu hs h)
-
-/-- … and no group of the grouped tree consists of whitespace only -/
-theorem groupWith_nw (hu : DelimU u) {fuel : Nat} {st : List Tok} {ks' : List Node}
-    (hs : DelimSafeWith u fuel st = true) (h : groupWith u fuel (flatStatement st) = .ok ks') : nwL ks' = true :=
-  nwL_of_listInv ks' (groupWith_listInv hu hs h)
-
-end DC
+end DCR
 end Sql
